@@ -18,6 +18,8 @@ from core import Case
 
 PID = "C09"
 LEAN_MODULES = ["MirProofs.Props.C09"]
+# C09_Gen restates the root-spelling theorems on chord.pitch_class_to_semitone as REGENERATED from the source
+TRANSLATOR_PARTS = ["tables", "scalars_chord"]
 RULE = ("chords: label pairs from the C11 pool, all 12 transpositions x 3 spellings (sharps, flats, exotic "
         "double accidentals); short label sequences on a 1/32 s lattice for chord.evaluate; "
         "keys: ALL ordered pairs of the 134 valid key strings (17 spellings x case variants x 3 modes + X/x), each "
